@@ -10,6 +10,7 @@ import KotoVerif.Lemmas.C04
 import KotoVerif.Lemmas.C04Unwind
 import KotoVerif.Lemmas.C04Refine
 import KotoVerif.Model.TryMech
+import KotoVerif.Model.TryBuilders
 
 namespace KotoVerif.C04
 
@@ -493,8 +494,8 @@ leave catch blocks of a try without `finally` and may be raised inside `finally`
 program and every fuel on which the guide-level evaluator finishes, the mechanism — the compiled
 `TryStart/TryEnd/Jump/CheckType` layout on the catch-stack machine — produces exactly the guide's
 marker trace and ends the same way (normally, or with the same uncaught value), for every
-sufficient step budget. Together with the negation witnesses above this delimits F-C04-1/F-C04-5
-exactly: the code deviates from the guide only through abrupt exits. -/
+sufficient step budget. Together with the negation witnesses above this delimits F-C04-1 exactly:
+the layout deviates from the guide only where an abrupt exit skips the `finally` code. -/
 theorem mech_trace_eq_guide_trace (P : Prog) (hdefs : P.defs = []) (hm : Frag P.main) (code : Code)
     (hc : compileProg P = some code) (n : Nat) (hn : (runProg guide P n).1 ≠ .oof) :
     ∃ k, ∀ fuel ≥ k, (exec code fuel).out = guideTags P n ∧
@@ -589,5 +590,58 @@ theorem unwind_registers_untouched (v : Val) (above : List Frame) (f : Frame) (b
   · intro r hr
     have : (reg == r) = false := by simp [Ne.symm hr]
     simp [regGet, List.find?, this]
+
+
+/-! ## C. builder stacks (mechanism since /repo 97373d1; before: finding F-C04-4) -/
+
+namespace Bld
+
+/-- **A caught error restores the builder stacks to their depth at `TryStart`.** The handler is in
+frame `f` (catch entry recorded `d`), the frames `above` it have no entry. If nothing recorded
+since is shallower than `d` — depths only grow while the try block is open: every frame entered
+later and the current stacks are at least `d` deep — then after unwinding both stacks are exactly
+`d` deep: the builders abandoned by the error, in this frame and in all frames above, are gone. -/
+theorem catch_restores_builders (above : List Builders.Frame) (f : Builders.Frame) (below : List Builders.Frame) (vm : Builders.VM)
+    (d : Nat × Nat) (cs : List (Nat × Nat))
+    (habove : ∀ g ∈ above, g.catches = [] ∧ d.1 ≤ g.entry.1 ∧ d.2 ≤ g.entry.2)
+    (hf : f.catches = d :: cs) (hseq : d.1 ≤ vm.seq) (hstr : d.2 ≤ vm.str) :
+    (Builders.unwind (above ++ f :: below) vm).seq = d.1 ∧ (Builders.unwind (above ++ f :: below) vm).str = d.2 ∧
+    (Builders.unwind (above ++ f :: below) vm).frames = f :: below ∧
+    (Builders.unwind (above ++ f :: below) vm).uncaught = vm.uncaught := by
+  induction above generalizing vm with
+  | nil =>
+    simp only [List.nil_append, Builders.unwind, hf, Builders.truncTo]
+    exact ⟨Nat.min_eq_right hseq, Nat.min_eq_right hstr, trivial, trivial⟩
+  | cons g above ih =>
+    obtain ⟨hg, h1, h2⟩ := habove g (by simp)
+    simp only [List.cons_append, Builders.unwind, hg]
+    have := ih (Builders.truncTo g.entry vm) (fun g hg => habove g (by simp [hg]))
+      (by simp only [Builders.truncTo]; exact Nat.le_min.mpr ⟨hseq, h1⟩)
+      (by simp only [Builders.truncTo]; exact Nat.le_min.mpr ⟨hstr, h2⟩)
+    simpa [Builders.truncTo] using this
+
+/-- **Leaving a frame restores the builder stacks to their depth at frame entry** (normal return or
+popped by the unwinder), provided they are at least that deep (they only grow inside the frame). -/
+theorem frame_exit_restores_builders (f : Builders.Frame) (rest : List Builders.Frame) (vm : Builders.VM)
+    (hframes : vm.frames = f :: rest) (hseq : f.entry.1 ≤ vm.seq) (hstr : f.entry.2 ≤ vm.str) :
+    (Builders.step vm .ret).seq = f.entry.1 ∧ (Builders.step vm .ret).str = f.entry.2 ∧ (Builders.step vm .ret).frames = rest := by
+  simp only [Builders.step, hframes, Builders.truncTo]
+  exact ⟨Nat.min_eq_right hseq, Nat.min_eq_right hstr, trivial⟩
+
+/-- `TryStart` records the current depths, `call` records them in the new frame -/
+theorem tryStart_records_depths (f : Builders.Frame) (rest : List Builders.Frame) (vm : Builders.VM) (h : vm.frames = f :: rest) :
+    (Builders.step vm .tryStart).frames = { f with catches := (vm.seq, vm.str) :: f.catches } :: rest := by
+  simp [Builders.step, h]
+
+/-- the former F-C04-4 scenario: the caller's interpolation is open (depth 1), the callee opens its
+own inside a try and the hole raises two frames up; after the catch the callee sees depth 1 again,
+after its return the caller finishes its own string: depth 0. Without the truncation the caller
+would have appended to the callee's abandoned builder. -/
+example :
+    let evs := [Builders.Ev.strStart, .call, .tryStart, .strStart, .seqStart, .call, .raise]
+    ((Builders.run evs {}).str, (Builders.run evs {}).seq, (Builders.run evs {}).frames.length,
+     (Builders.run (evs ++ [.tryEnd, .ret, .strEnd]) {}).str) = (1, 0, 2, 0) := by decide
+
+end Bld
 
 end KotoVerif.C04
